@@ -345,6 +345,25 @@ def _static_and_nomem():
     return out
 
 
+def _cmpzero():
+    """names with a zero byte inside: comparison with names that agree up to and including the zero byte and differ behind it"""
+    out = []
+    for size in (16, 32, 64):
+        for ln in (2, 3, 5, 11, 12, 13, 27, 28, 29, 40, 300):
+            for k in sorted({0, 1, ln // 2, ln - 2}):
+                if k < 0 or k >= ln - 1:
+                    continue
+                name = bytes((0x61 + j % 20) if j != k else 0 for j in range(ln))
+                lines = ["i reset", "i new %d" % size, "i new %d" % size, "i set 0 %s %d" % (name.hex(), ln), "i cmp 0 %s %d" % (name.hex(), ln)]
+                for d in sorted({k + 1, ln - 1, (k + ln) // 2}):
+                    other = bytearray(name)
+                    other[d] ^= 0x15
+                    lines += ["i cmp 0 %s %d" % (bytes(other).hex(), ln), "i set 1 %s %d" % (bytes(other).hex(), ln), "i ineq 0 1", "i cmp 1 %s %d" % (name.hex(), ln)]
+                lines += ["i cmp 0 %s %d" % (name[:k + 1].hex(), k + 1), "i cmp 0 %s -1" % name.hex(), "i free 0", "i free 1"]
+                out.append(("cmpzero:%d:%d:%d" % (size, ln, k), lines))
+    return out
+
+
 def _cmpnull():
     """mpt_identifier_compare with a zero name pointer (outside the property: code against model only) and the
     argument checks in front of it"""
@@ -450,6 +469,7 @@ def scripts(tier, seed, scale=1):
                           "i set 0 6162 1", "i free 0", "i set 0 61"]))
     out += _self_and_nodes(tier)
     out += _cmpnull()
+    out += _cmpzero()
     out += _static_and_nomem()
     out += _random(tier, seed, scale)
     return out
